@@ -1,6 +1,7 @@
 """C07 — File-level validation equals row-by-row string validation, with true locations."""
 import copy
 import io
+import re
 import json
 from collections import Counter
 
@@ -166,7 +167,24 @@ def validate_file(spec, header, rows):
     doc = gen_tab.sidecar_json(spec)
     sidecar = Sidecar(io.StringIO(json.dumps(doc)), name="sc")
     tab = TabularInput(io.StringIO(gen_tab.to_tsv({"header": header, "rows": rows})), sidecar=sidecar, name="tab")
-    return tab.validate(hedenv.schema(VERSION), extra_def_dicts=def_dict(), name="tab")
+    before = tab.dataframe.copy(deep=True)
+    first = tab.validate(hedenv.schema(VERSION), extra_def_dicts=def_dict(), name="tab")
+    # asked again, the same object gives the same answer, and validation leaves the table as it was
+    second = tab.validate(hedenv.schema(VERSION), extra_def_dicts=def_dict(), name="tab")
+    k1, k2 = sorted(map(_stable_key, first)), sorted(map(_stable_key, second))
+    if k1 != k2:
+        raise Unstable(f"first {k1[:6]} second {k2[:6]}")
+    if not before.astype(object).equals(tab.dataframe.astype(object)) or list(before.index) != list(tab.dataframe.index):
+        raise Unstable("table changed by validation")
+    return first
+
+
+class Unstable(Exception):
+    pass
+
+
+def _stable_key(i):
+    return (i["code"], i["severity"], str(i.get("ec_row")), str(i.get("ec_column")), str(i.get("source_tag")))
 
 
 def string_errors(text):
@@ -226,6 +244,9 @@ def oracle(case):
     # (1) totality
     try:
         issues = validate_file(spec, header, rows)
+    except Unstable as exc:
+        return out.bad("file-verdict-depends-on-object-history", f"{exc}; mode={mode} header={header} rows={rows} "
+                                                                 f"sidecar={json.dumps(gen_tab.sidecar_json(spec))[:500]}")
     except Exception as exc:  # noqa
         from vlib.core import crash_signature
         sig = crash_signature(exc, "file-validate-raises") or f"file-validate-raises:{type(exc).__name__}"
@@ -373,6 +394,9 @@ def spreadsheet_case(draw):
             "by_number": draw(st.booleans()), "xlsx": draw(st.integers(0, 3)) == 0}
 
 
+_XLSX_ILLEGAL = re.compile(r"[\000-\010]|[\013-\014]|[\016-\037]")   # openpyxl refuses to write these; such sheets go as TSV
+
+
 def oracle_spreadsheet(case):
     import os
     import tempfile
@@ -387,7 +411,7 @@ def oracle_spreadsheet(case):
     ctx = f"header={header} rows={rows} tag_columns={tag_cols} prefix={pre} xlsx={case['xlsx']}"
     tmp = None
     try:
-        if case["xlsx"]:
+        if case["xlsx"] and not any(_XLSX_ILLEGAL.search(c) for r in rows for c in r):
             import openpyxl
             tmp = tempfile.mkdtemp(prefix="c07x_", dir=os.environ.get("HOME"))
             path = os.path.join(tmp, "sheet.xlsx")
@@ -428,6 +452,9 @@ def oracle_spreadsheet(case):
         errs = {h: Counter({k: v for k, v in string_errors(c).items() if k in CELL_LEVEL_CODES})
                 for h, c in cells.items()}
         full_errs = {h: string_errors(c) for h, c in cells.items()}
+        for h, e in full_errs.items():
+            if "TAG_EMPTY" in e:       # delimiter-level fault of the cell itself: the row is not "individually error-free"
+                errs[h]["TAG_EMPTY"] = e["TAG_EMPTY"]
         if any(errs.values()):
             any_fault = True
             for h, e in errs.items():
@@ -446,6 +473,14 @@ def oracle_spreadsheet(case):
             pass
         joined = ", ".join(cells[h] for h in header if h in cells)
         exp = string_errors(joined) if joined else Counter()
+        if joined:
+            # a spreadsheet has no onset column: each timing tag is additionally a TEMPORAL_TAG_ERROR (as in the
+            # 'noonset' mode of the events-file part)
+            from hed.models import HedString
+            ntemporal = sum(1 for t in HedString(joined, hedenv.schema(VERSION)).get_all_tags()
+                            if t.short_base_tag.casefold() in ("onset", "offset", "inset", "duration", "delay"))
+            if ntemporal:
+                exp["TEMPORAL_TAG_ERROR"] += ntemporal
         if got != exp:
             out.bad("spreadsheet-row-verdict-differs:" + "+".join(sorted(set((got - exp) | (exp - got)))),
                     f"row {file_row}: file {dict(got)} string-level {dict(exp)} for {joined!r}; {ctx}")
